@@ -269,6 +269,7 @@ def _accessor_semantics(w, S, R, acc, act):
 
 def run(ctx, w):
     _run(ctx, w)
+    shared.mode_rule(ctx, w, shared.screen(w), shared.roles(w), "P14")
     # the commands of this property must first of all be DECODED as specified (selector values, parameter slots, finals)
     from rules import c03
     shared.embed(ctx, w, c03.dispatch_rules)
